@@ -26,6 +26,8 @@ import (
 	"math"
 	"math/big"
 	"math/rand"
+	"os"
+	"path/filepath"
 	"reflect"
 	"strconv"
 	"strings"
@@ -495,7 +497,30 @@ func c40TrimFrac(s string) string {
 		s = strings.TrimRight(s, "0")
 		s = strings.TrimSuffix(s, ".")
 	}
+	return c40PadYear(s)
+}
+
+// c40PadYear renders the year of a date with four digits (GMS prints year 1 as "1-01-01").
+func c40PadYear(s string) string {
+	if i := strings.IndexByte(s, '-'); i > 0 && i < 4 {
+		s = strings.Repeat("0", 4-i) + s
+	}
 	return s
+}
+
+func c40MaxKeyLen(v any) int {
+	m := 0
+	switch x := v.(type) {
+	case map[string]any:
+		for k, e := range x {
+			m = max(m, len(k), c40MaxKeyLen(e))
+		}
+	case []any:
+		for _, e := range x {
+			m = max(m, c40MaxKeyLen(e))
+		}
+	}
+	return m
 }
 
 func c40TimeMicros(s string) (int64, bool) {
@@ -789,6 +814,8 @@ func c40Compare(ctx *sql.Context, typ sql.Type, stored any, cell sqltypes.Value)
 		a, ok1 := c40Rat(string(wr))
 		b, ok2 := c40Rat(string(gr))
 		return ok1 && ok2 && a.Cmp(b) == 0, want, got, class
+	case query.Type_DATE:
+		return c40PadYear(string(wr)) == c40PadYear(string(gr)), want, got, class
 	case query.Type_DATETIME, query.Type_TIMESTAMP:
 		return c40TrimFrac(string(wr)) == c40TrimFrac(string(gr)), want, got, class
 	case query.Type_TIME:
@@ -851,13 +878,110 @@ func c40Compare(ctx *sql.Context, typ sql.Type, stored any, cell sqltypes.Value)
 		d := c40JSONDiff("$", c40JSONNorm(sv), c40JSONNorm(dv))
 		if d != "" {
 			got = d
-			if strings.Contains(d, "missing in decoded object") || strings.Contains(d, "keys stored") {
-				class = "object-keys"
+			if c40MaxKeyLen(c40JSONNorm(sv)) >= 256 {
+				class = "object-key-of-256-bytes-or-more"
 			}
 		}
 		return d == "", want, got, class
 	}
 	return bytes.Equal(wr, gr), want, got, class
+}
+
+// c40Canon renders a stored value in a decoder-independent canonical text form. It is written to a side file so
+// that a second decoder (go-mysql, in the external harness module) can be compared against the same stored values.
+func c40Canon(ctx *sql.Context, typ sql.Type, fam string, stored any) (string, error) {
+	sv, err := typ.SQL(ctx, nil, stored)
+	if err != nil {
+		return "", err
+	}
+	raw := sv.Raw()
+	switch fam {
+	case "int":
+		return string(raw), nil
+	case "float":
+		if typ.Type() == query.Type_FLOAT32 {
+			f, ok := stored.(float32)
+			if !ok {
+				g, err := strconv.ParseFloat(string(raw), 32)
+				if err != nil {
+					return "", err
+				}
+				f = float32(g)
+			}
+			if f == 0 {
+				f = 0
+			}
+			return fmt.Sprintf("f32:%08x", math.Float32bits(f)), nil
+		}
+		f, ok := stored.(float64)
+		if !ok {
+			if f, err = strconv.ParseFloat(string(raw), 64); err != nil {
+				return "", err
+			}
+		}
+		if f == 0 {
+			f = 0
+		}
+		return fmt.Sprintf("f64:%016x", math.Float64bits(f)), nil
+	case "decimal":
+		r, ok := c40Rat(string(raw))
+		if !ok {
+			return "", fmt.Errorf("bad decimal %q", raw)
+		}
+		return r.String(), nil
+	case "date":
+		return c40PadYear(string(raw)), nil
+	case "datetime", "timestamp":
+		return c40TrimFrac(string(raw)), nil
+	case "time":
+		us, ok := c40TimeMicros(string(raw))
+		if !ok {
+			return "", fmt.Errorf("bad time %q", raw)
+		}
+		return strconv.FormatInt(us, 10), nil
+	case "year":
+		y, err := strconv.Atoi(string(raw))
+		return strconv.Itoa(y), err
+	case "bit", "enum", "set":
+		cv, _, err := typ.Convert(ctx, stored)
+		if err != nil {
+			return "", err
+		}
+		switch x := cv.(type) {
+		case uint16:
+			return strconv.FormatUint(uint64(x), 10), nil
+		case uint64:
+			return strconv.FormatUint(x, 10), nil
+		}
+		return "", fmt.Errorf("unexpected %T", cv)
+	case "json":
+		jw, ok := stored.(sql.JSONWrapper)
+		if !ok {
+			return "", fmt.Errorf("unexpected %T", stored)
+		}
+		v, err := jw.ToInterface(ctx)
+		if err != nil {
+			return "", err
+		}
+		b, err := json.Marshal(c40JSONNorm(v))
+		return string(b), err
+	}
+	if typ.Type() == query.Type_BINARY {
+		raw = bytes.TrimRight(raw, "\x00")
+	}
+	return "hex:" + hex.EncodeToString(raw), nil
+}
+
+type c40ExpCol struct {
+	Def    string `json:"def"`
+	Family string `json:"family"`
+}
+
+type c40ExpTable struct {
+	TableID uint64               `json:"table_id"`
+	Table   string               `json:"table"`
+	Cols    []c40ExpCol          `json:"cols"`
+	Rows    map[string][]*string `json:"rows"` // id -> canonical cells (nil = NULL), without the id column
 }
 
 // ---------------------------------------------------------------------------------------------------------------
@@ -932,7 +1056,7 @@ func TestVerifC40(t *testing.T) {
 			light = append(light, col)
 		}
 	}
-	nMixed := c.Pick(16, 400)
+	nMixed := c.Pick(24, 480)
 	widths := []int{1, 7, 8, 9, 15, 16, 17, 24}
 	for i := 0; i < nMixed; i++ {
 		rng := c.SubRand("c40/mixed", i)
@@ -947,8 +1071,22 @@ func TestVerifC40(t *testing.T) {
 	format := createBinlogFormat()
 	meta := mysql.BinlogEventMetadata{ServerID: 1, Timestamp: 1700000000}
 
+	// side files for the second decoder: a binlog file made of the very events decoded here, and the stored values
+	evFile, err := os.Create(filepath.Join(c.Dir, "c40-events.binlog"))
+	if err != nil {
+		t.Fatal(err)
+	}
+	defer evFile.Close()
+	evFile.Write([]byte{0xfe, 'b', 'i', 'n'})
+	evFile.Write(mysql.NewFormatDescriptionEvent(*format, meta).Bytes())
+	expFile, err := os.Create(filepath.Join(c.Dir, "c40-expected.jsonl"))
+	if err != nil {
+		t.Fatal(err)
+	}
+	defer expFile.Close()
+
 	var (
-		cells, nulls, rowsN, insertRejected, rowLenBad int
+		cells, nulls, rowsN, insertRejected, rowLenBad, serializeErrors int
 		famCells                                      = map[string]int{}
 		perKey                                        = map[string]int{}
 		rejectedSamples                               []string
@@ -1003,7 +1141,7 @@ func TestVerifC40(t *testing.T) {
 			}
 		}
 		insert("", "") // all NULL
-		nRand := c.Pick(6, 40)
+		nRand := c.Pick(20, 120)
 		if isFam && tb.cols[0].Heavy {
 			nRand = c.Pick(3, 12)
 		}
@@ -1065,6 +1203,7 @@ func TestVerifC40(t *testing.T) {
 			t.Fatal(err)
 		}
 		var mrows []mysql.Row
+		serrBefore := serializeErrors
 		for {
 			k, v, err := it.Next(sqlCtx)
 			if err == io.EOF {
@@ -1075,7 +1214,40 @@ func TestVerifC40(t *testing.T) {
 			}
 			data, nullBitmap, err := serializeRowToBinlogBytes(sqlCtx, sch, sch, tree.Item(k), tree.Item(v), tbl.NodeStore())
 			if err != nil {
-				viol("c40/serialize/error/"+tb.name, "serializeRowToBinlogBytes failed: "+err.Error(), map[string]any{"table": tb.name})
+				serializeErrors++
+				// attribute the failure to a column by walking the row the way the production loop does
+				iter := newRowSerializationIter(sqlCtx, sch, sch, tree.Item(k), tree.Item(v), tbl.NodeStore())
+				ci, rowID := -1, "?"
+				for iter.hasNext() {
+					ci++
+					fromCol, toCol, desc, tuple, tupleIdx := iter.nextColumn()
+					typ := fromCol.TypeInfo.ToSqlType()
+					ser := typeSerializersMap[typ.Type()]
+					val, derr := ser.deserialize(sqlCtx, typ, desc, tuple, tupleIdx, tbl.NodeStore())
+					if derr != nil || val == nil {
+						continue
+					}
+					if ci == 0 {
+						rowID = fmt.Sprint(val)
+						continue
+					}
+					if _, serr := ser.serialize(sqlCtx, toCol.TypeInfo.ToSqlType(), val, tbl.NodeStore()); serr != nil {
+						col := tb.cols[ci-1]
+						stored := "?"
+						if w := wantByID[rowID]; w != nil {
+							if sv, e := typ.SQL(sqlCtx, nil, w[ci]); e == nil {
+								stored = c40Short(sv.Raw())
+							}
+						}
+						class := "any"
+						if dt, isDec := typ.(sql.DecimalType); isDec && dt.Precision() == dt.Scale() {
+							class = "precision-equals-scale"
+						}
+						viol("c40/serialize-error/"+col.Family+"/"+col.Def+"/"+class,
+							fmt.Sprintf("column %s: stored value %s cannot be serialized into a row event: %s", col.Def, stored, serr.Error()),
+							map[string]any{"table": tb.name, "row_id": rowID, "column": col.Def, "stored": stored, "error": serr.Error()})
+					}
+				}
 				continue
 			}
 			mrows = append(mrows, mysql.Row{NullColumns: nullBitmap, Data: data})
@@ -1092,6 +1264,30 @@ func TestVerifC40(t *testing.T) {
 			continue
 		}
 		rowsEv := mysql.NewWriteRowsEvent(*format, meta, tableID, mysql.Rows{DataColumns: dataCols, Rows: mrows})
+
+		evFile.Write(tmEv.Bytes())
+		evFile.Write(rowsEv.Bytes())
+		exp := c40ExpTable{TableID: tableID, Table: tb.name, Rows: map[string][]*string{}}
+		for _, col := range tb.cols {
+			exp.Cols = append(exp.Cols, c40ExpCol{col.Def, col.Family})
+		}
+		for _, wr := range want {
+			cellsOut := make([]*string, len(tb.cols))
+			for i, col := range tb.cols {
+				if wr[i+1] == nil {
+					continue
+				}
+				cs, err := c40Canon(sqlCtx, sch.GetAllCols().GetColumns()[i+1].TypeInfo.ToSqlType(), col.Family, wr[i+1])
+				if err != nil {
+					cs = "canon-error: " + err.Error()
+				}
+				cellsOut[i] = &cs
+			}
+			exp.Rows[fmt.Sprint(wr[0])] = cellsOut
+		}
+		if b, err := json.Marshal(exp); err == nil {
+			expFile.Write(append(b, '\n'))
+		}
 
 		// ---- the replica side (a replica strips the event checksum first)
 		if e2, _, err := tmEv.StripChecksum(*format); err == nil {
@@ -1110,7 +1306,7 @@ func TestVerifC40(t *testing.T) {
 			viol("c40/decode/rows-event", "vitess cannot parse the WriteRows event: "+err.Error(), map[string]any{"table": tb.name, "columns": defs})
 			continue
 		}
-		if len(drows.Rows) != len(want) {
+		if len(drows.Rows) != len(mrows) || len(mrows)+serializeErrors-serrBefore != len(want) {
 			viol("c40/rows/count", fmt.Sprintf("%d rows stored, %d rows in the event", len(want), len(drows.Rows)), map[string]any{"table": tb.name})
 		}
 		colTypes := make([]sql.Type, nCols)
@@ -1210,6 +1406,7 @@ func TestVerifC40(t *testing.T) {
 	c.Count("c40.cells_compared", cells)
 	c.Count("c40.null_cells", nulls)
 	c.Count("c40.inserts_rejected_by_engine", insertRejected)
+	c.Count("c40.rows_failing_serialization", serializeErrors)
 	for f, n := range famCells {
 		c.Count("c40.cells."+f, n)
 	}
